@@ -263,6 +263,40 @@ def model_vs_probe(rep, pid, scenario, combos):
                                                                     "scenario": a, **detail, "observation": {k: v for k, v in d.items() if k != "log"}}, found=False)
 
 
+def interact_struct_part(rep, pid, rng):
+    """handle methods of `interact` actors (getter arguments, channel ends handed back) send their message the way every other method does: the
+    structural premise `wf_struct` (send kind per runtime and channel kind, await, reply wait) is evaluated on real expansions of them, bounded
+    channels included.  A broken premise is reported without failing input (the runtime probes do not fill a queue in front of such a method)."""
+    import C14
+    cases = []
+    for lib in gen_impl.LIBS:
+        for ch in (None, 2):
+            for kinds in (("E",), ("O", "E"), ("G", "E"), ("G", "O")):
+                c = C14.mk_case(rng, kinds, lib, irregular=False, interact=True, ret=False)
+                c["channel"] = ch
+                cases.append(c)
+    cfgs = [{"kind": "actor", "lib": c["lib"], "attr": gen_impl.actor_attr(c["lib"], c["channel"], debut=True, interact=True), "item": C14.item_of([c]),
+             "label": "interact lib=%s channel=%s kinds=%s" % (c["lib"], c["channel"], c["kinds"])} for c in cases]
+    cfgs = inst.expand_configs(cfgs, tag=pid.lower() + "is")
+    terms, owners = [], []
+    for c in cfgs:
+        rep.evaluations += 1
+        ms = inst.coq_models(c) if c["class"] == "TOKENS" else []
+        if len(ms) != 1 or ms[0] is None:
+            rep.oblige(False)
+            rep.violation("shape_" + c["label"], {"what": "interact method not expanded / recognised", "class": c["class"], "attr": c["attr"], "item": c["item"], "output": c["text"][:1200]}, found=False)
+            continue
+        terms.append(ms[0]); owners.append(c)
+    if not terms:
+        return
+    res, _ = inst.coq_eval(pid + "is", terms, [("ws", "wf_struct {i}")])
+    for c, r in zip(owners, res):
+        rep.nontrivial.add(("interact-struct", c["label"]))
+        if not rep.oblige(r["ws"] == "true"):
+            rep.violation("interact_struct_" + c["label"], {"what": "the handle method of an `interact` actor is not in the recognised send / wait form (wf_struct = false): the per-handle "
+                          "order and exactly-once arguments are no longer shown for it", "attr": c["attr"], "item": c["item"]}, found=False)
+
+
 def interact_exec_part(rep, pid, rng):
     """`interact` methods are outside the single-actor premise (their getter / channel-end arguments do not come from the caller), so the
     runtime checks look at them separately: the dispatch arm must call the user's method with `.await` exactly when the user declared it
